@@ -575,7 +575,7 @@ static void analyse_log(int idle_shutdown) {
     memset(post_call, 0xff, sizeof(post_call));
     memset(post_ret, 0xff, sizeof(post_ret));
     for (uint32_t i = 0; i < n; i++) {
-        uint64_t e  = g_ev[i];
+        uint64_t e  = __atomic_load_n(&g_ev[i], RLX); /* parked producers are not joined */
         int      op = (int)(e >> 56);
         uint32_t t  = (uint32_t)e;
         if (op == OP_POST_CALL && t <= MAXTICKETS)
